@@ -19,7 +19,7 @@ TIMEOUT = {'quick': 600, 'thorough': 3000}
 MIN_NONTRIVIAL = {'quick': 100, 'thorough': 3000}
 
 LIMIT_S = 20
-N_NET = {'quick': 450, 'thorough': 40000}
+N_NET = {'quick': 450, 'thorough': 24000}
 BATCH = 150
 MAX_TIMEOUTS = 3
 
